@@ -129,14 +129,21 @@ def effective_policy(t, path, root_policy):
 
 def ints_tree():
     """the Int option -n is multi-valued (IntsOpt) here: every written value must convert, padded numerals do not"""
-    nodes = [node(["app"], "app", g.Seq(g.Rep(g.Optional(NN)), g.Optional(X)), subs=[1]),
-             node(["c1"], "app c1", g.Seq(g.Rep(g.Optional(NN))))]
+    nodes = [node(["app"], "app", g.Seq(g.Rep(g.Optional(NN)), g.Optional(X)), subs=[1, 2, 3]),
+             node(["c1"], "app c1", g.Seq(g.Rep(g.Optional(NN)))),
+             # the option is mandatory here and its environment variable holds nothing a number could be read from: it stays mandatory
+             node(["c2"], "app c2", g.Seq(g.Rep(NN))),
+             node(["c3"], "app c3", g.Seq(g.Rep(NN), g.Optional(X)))]
     for n in nodes:
         n["intmulti"] = True
+    nodes[2]["intenv"] = ","
+    nodes[3]["intenv"] = " , zz"
     vectors = []
     for base in ([], ["c1"]):
         for tail in (["-n=7"], ["-n= 7"], ["-n=7 "], ["-n=7", "-n=\t12"], ["-n=12", "-n=7"], ["-n", "7"], ["-n", " 7"], ["-n=zz"], ["-n=7", "-n=zz"], ["-n= "], ["-n=100%"], ["-n=%d%s"]):
             vectors.append(base + tail)
+    vectors += [["c2"], ["c2", "-n=7"], ["c3"], ["c3", "x"], ["c3", "-n=12", "x"]]
+    vectors += [["-n=0x10"], ["-n=0b11", "c1"], ["-n=1_0", "c1", "-n=7"], ["-n=0o17"], ["c1", "-n=0x7"]]
     return {"version": "", "nodes": nodes, "vectors": vectors}
 
 
@@ -219,6 +226,19 @@ def implicit_trees():
                        ["-f", "build", "build"], ["build"], ["x", "build", "-f"], ["sh", "sh"], ["-n=7", "x", "sh"], ["--", "show"], ["--", "show", "show"]]
             out.append({"version": "", "nodes": nodes, "vectors": vectors})
     return out
+
+
+def respec_tree():
+    """the application declares an option and an argument, its sub commands declare nothing (so the object can run twice); the
+    earlier runs happen under ANOTHER spec string of the application (`prespec`)"""
+    BARE = {"opts": [], "args": []}
+    nodes = [node(["app"], "app", g.Seq(g.Optional(F), X), subs=[1]),
+             node(["check", "ck"], "app check", g.Seq(), subs=[2], prog=BARE, spec=""),
+             node(["deep"], "app check deep", g.Seq(), prog=BARE, spec="")]
+    for n in nodes[1:]:
+        n["bare"] = True
+    vectors = [["x", "check", "deep"], ["x", "y", "check", "deep"], ["-f", "x", "ck"], ["check"], ["x"], ["x", "y"], ["-f", "x", "y", "check"], ["x", "check", "bogus"]]
+    return {"version": "", "nodes": nodes, "vectors": vectors, "prespec": "X X"}
 
 
 def late_tree():
@@ -332,8 +352,9 @@ def harness_case(t, policy, argv, prerun=()):
     nodes = []
     for n in t["nodes"]:
         nodes.append({"names": n["names"], "path": n["path"], "spec": n["spec"], "opts": [o for o in n["prog"]["opts"] if o["names"] != "n"], "intopt": "n",
-                      "args": list(n["prog"]["args"]), "subs": n["subs"], "action": n["action"], "bare": n.get("bare", False), "hidden": n.get("hidden", False), "policy": n.get("policy", ""), "late": n.get("late", False), "intmulti": n.get("intmulti", False)})
-    return {"nodes": nodes, "version": t["version"], "policy": policy, "argv": argv, "prerun": [list(p) for p in prerun]}     # N: an Int argument
+                      "args": list(n["prog"]["args"]), "subs": n["subs"], "action": n["action"], "bare": n.get("bare", False), "hidden": n.get("hidden", False), "policy": n.get("policy", ""), "late": n.get("late", False), "intmulti": n.get("intmulti", False), "intenv": n.get("intenv", "")})
+    return {"nodes": nodes, "version": t["version"], "policy": policy, "argv": argv, "prerun": [list(p) for p in prerun],
+            "prespec": t.get("prespec") if prerun else None}
 
 
 def predict(workdir, trs, alphabet, maxlen, policies, timeout=3000):
